@@ -61,7 +61,7 @@ pub fn hash_mix(a: u64, b: u64) -> u64 {
 }
 
 /// Hostile special values for float workloads (C07/C13/C18).
-pub const SPECIALS: [f32; 44] = [
+pub const SPECIALS: [f32; 50] = [
     f32::NAN,
     f32::INFINITY,
     f32::NEG_INFINITY,
@@ -106,6 +106,12 @@ pub const SPECIALS: [f32; 44] = [
     65535.0,
     65536.0,
     4.2949673e9,
+    -1e-20,
+    -1e-6,
+    -f32::EPSILON,
+    f32::EPSILON,
+    359.99997,
+    360.0,
 ];
 
 pub fn nan_payloads() -> [f32; 4] {
